@@ -539,8 +539,13 @@ def run_case(spec, work):
         exact = False
         th['p_th'] = 0.05
     gene_list = None
-    if rng.random() < 0.35 and not spec.get('big'):
+    if (rng.random() < 0.35 and not spec.get('big')) or \
+            (spec.get('big') and spec['seed'] % 2 == 0):
         gene_list = [g for g in genes if rng.random() < 0.6] or [genes[0]]
+    if spec.get('big') and gene_list is not None:
+        # many pairs, a gene list, approximate penetrance: pairs short of
+        # n_valid markers go through the relaxed second pass
+        ctx.bump('many_pair_tables_with_gene_list_and_relaxed_pass')
     if spec.get('force') == 'list-approx-nofloors':
         exact = False
         if gene_list is None:
